@@ -3,6 +3,7 @@ package checks
 import (
 	"fmt"
 	"math"
+	"strconv"
 	"strings"
 	"time"
 	_ "time/tzdata"
@@ -606,5 +607,69 @@ func buildC08(cfg *mon.Config) []*mon.Sub {
 			c.NonTrivial()
 		},
 	}
-	return []*mon.Sub{exh, rnd, dst, bytesSub}
+	clock := &mon.Sub{
+		Name: "clock-functions-across-second-boundaries", Rule: "16 goroutines call Now() and Ticks() back to back (direct calls, type-unsafe manager) for 3.1 s (thorough: 30.1 s), i.e. across at least three (thirty) second boundaries: every Now() must lie between a clock reading taken just before the call and one taken just after it (1 ms of slack for clock steps), every Ticks() between the Unix seconds of those two readings; within a millisecond of a boundary each goroutine hammers one of the two functions only - so a value assembled from two separate clock readings, or rounded up to the next second, shows when a call straddles a boundary; a case is one call",
+		Exhaustive: true, DistinctByGen: true, Floor: 16,
+		Batch: 1,
+		Gen: func(emit func(string)) {
+			for i := 0; i < 16; i++ {
+				emit("spin " + strconv.Itoa(i) + " " + strconv.Itoa(cfg.N(3100, 30100)))
+			}
+		},
+		Exec: func(c *mon.Case) {
+			fc := functions.NewDefaultFunctionCollection()
+			now, ticks := fc.FindByName("now"), fc.FindByName("ticks")
+			mgr := manager("unsafe")
+			var shard, ms int
+			fmt.Sscanf(c.Payload, "spin %d %d", &shard, &ms)
+			start := time.Now()
+			calls := 0
+			checkNow := func() bool {
+				before := time.Now()
+				r, err := now.Calculate(nil, mgr)
+				after := time.Now()
+				if err != nil || r == nil || r.Type() != variants.DateTime || r.AsDateTime().Before(before.Add(-time.Millisecond)) || r.AsDateTime().After(after.Add(time.Millisecond)) {
+					c.Failf("function NOW does not compute what its name denotes", "Now() -> %v (%v), called between %s and %s", snap(r), err, before.Format(time.RFC3339Nano), after.Format(time.RFC3339Nano))
+					return false
+				}
+				return true
+			}
+			checkTicks := func() bool {
+				before := time.Now()
+				r, err := ticks.Calculate(nil, mgr)
+				after := time.Now()
+				if err != nil || r == nil || r.Type() != variants.Long || r.AsLong() < before.Unix() || r.AsLong() > after.Unix() {
+					// other units are admissible (see the reference table); only a count of seconds is judged this tightly
+					if r != nil && r.Type() == variants.Long && r.AsLong() > after.Unix()+5 {
+						c.Count("ticks in another unit than seconds")
+						return true
+					}
+					c.Failf("function TICKS does not compute what its name denotes", "Ticks() -> %v (%v), called between Unix seconds %d and %d (%s .. %s)", snap(r), err, before.Unix(), after.Unix(), before.Format(time.RFC3339Nano), after.Format(time.RFC3339Nano))
+					return false
+				}
+				return true
+			}
+			for calls < 2000000000 && time.Since(start) < time.Duration(ms)*time.Millisecond {
+				// within a millisecond of a second boundary every goroutine hammers one of the two functions only, as densely as it can
+				if ns := time.Now().Nanosecond(); ns > 999000000 || ns < 1000000 {
+					for k := 0; k < 256; k++ {
+						if (shard%2 == 0 && !checkTicks()) || (shard%2 == 1 && !checkNow()) {
+							return
+						}
+					}
+					calls += 256
+					continue
+				}
+				for k := 0; k < 32; k++ {
+					if !checkNow() || !checkTicks() {
+						return
+					}
+					calls += 2
+				}
+			}
+			c.AddEvals(calls-1, calls-1)
+			c.NonTrivial()
+		},
+	}
+	return []*mon.Sub{exh, rnd, dst, bytesSub, clock}
 }
